@@ -188,6 +188,28 @@ func genC06(g *G) {
 		g.Emit("val 1 %d 0 0", ln)
 		g.Emit("val 1 %d 1 1", ln)
 	}
+	// one Transmitter, consecutive frames that differ only in their flags (and the all-zero frame with a flag as the very
+	// first frame): what is written must not depend on the frame sent before
+	for _, id := range []uint32{0, 0x123, 0x7ff} {
+		for _, ln := range []int{0, 2, 8} {
+			var d uint64
+			if id != 0 {
+				d = g.R.U64()
+			}
+			var toks []string
+			for _, fl := range [][2]bool{{false, true}, {false, false}, {true, false}, {true, true}, {false, false}} {
+				dd := d
+				if ln < 8 {
+					dd &= (1 << uint(8*ln)) - 1
+				}
+				f := can.Frame{ID: id, Length: uint8(ln), IsRemote: fl[0], IsExtended: fl[1]}
+				f.Data.UnpackLittleEndian(dd)
+				toks = append(toks, strings.ReplaceAll(frameArgs(f), " ", ",")+",1")
+			}
+			g.Emit("txq %s", strings.Join(toks, ";"))
+			g.Tag("flag-twins")
+		}
+	}
 	// blocks: every flag combination x ID patterns x dlc x payload basis + random blocks
 	ids := []uint32{0, 1, 0x7ff, 0x800, 0x1fffffff, 0x1ffff800, 0x555, 0x15555555}
 	for i := 0; i < 29; i++ {
